@@ -705,8 +705,9 @@ SCOPE = (
     "/ exclude_neighbors / stopping_mode / add_local_ends / alpha variants, the nsi_* entries of "
     "distance_based_measures(replace_inf_by=inf), and Network.splitted_copy against the harness "
     "transformation. Tolerances (all float64): 1e-9 relative (atol 1e-9*max|value|), 1e-7 for the "
-    "LU/inverse based random-walk betweennesses, 1e-6 for nsi_eigenvector_centrality (ARPACK tol "
-    "1e-8, connected undirected graphs only).")
+    "LU/inverse based random-walk betweennesses, 1e-4 for nsi_eigenvector_centrality (ARPACK tol "
+    "1e-8 in shift-invert mode; connected undirected graphs whose n.s.i. adjacency matrix has a "
+    "relative spectral gap >= 3e-3 only).")
 RULE = (
     "One evaluation = one (measure variant, case, split depth) comparison or one splitted_copy "
     "clause. A case = (graph, weights, link weights, split sequence, bipartition); it is distinct by "
